@@ -128,6 +128,7 @@ fn spec(prop: &str, alpha: Alpha, depth: usize, cfgs: Vec<Cfg>, oracles: Oracles
         reopen_cfgs: vec![],
         max_reopens: 0,
         max_refused: 0,
+        refused_level: 0,
         oracles,
         wall_cap: Duration::from_secs(cap_s * cap_mult()),
         grid_probes: false,
@@ -269,6 +270,7 @@ pub fn seq_phases(prop: &str, tier: &str) -> Vec<Phase> {
             };
             let mut s = spec(prop, Alpha::Core, if thorough { 6 } else { 4 }, vec![Cfg::records(3)], o.clone(), if thorough { 1500 } else { 30 });
             s.max_refused = if thorough { 2 } else { 1 };
+            s.refused_level = if thorough { 2 } else { 0 };
             let mut t = spec(
                 prop,
                 Alpha::Core,
@@ -278,6 +280,7 @@ pub fn seq_phases(prop: &str, tier: &str) -> Vec<Phase> {
                 if thorough { 1500 } else { 30 },
             );
             t.max_refused = if thorough { 2 } else { 1 };
+            t.refused_level = if thorough { 2 } else { 1 };
             vec![
                 Phase { name: "core alphabet with refused calls at every state, continued by legal operations (rotation every 2 writes)", spec: s },
                 Phase { name: "same, other chunk limits", spec: t },
